@@ -2,7 +2,7 @@
 CHECK = {
     "pkg": ".", "files": ["root/c28_test.go"], "run": "^TestC28",
     "quick": {"scale": 1, "shards": 1, "timeout": 600},
-    "thorough": {"scale": 6, "shards": 8, "timeout": 1500},
+    "thorough": {"scale": 15, "shards": 8, "timeout": 1500},
     "rule": "rapid histories of 1..60 operations over one real HostMap + HandshakeManager: add (fresh hostinfo with 1-3 of 4 "
             "overlay addresses, local index from 1..14 not currently held, remote index from 1..5 with collisions), re-add of a "
             "live hostinfo, DeleteHostInfo of any tunnel that ever was in the main map (incl. already removed), MakePrimary of any "
